@@ -1,6 +1,7 @@
 package faucetsc
 
 import (
+	"0chain.net/core/sortedmap"
 	"encoding/hex"
 	"encoding/json"
 	"fmt"
@@ -59,7 +60,10 @@ func (gn *GlobalNode) Decode(input []byte) error {
 }
 
 func (gn *GlobalNode) updateConfig(fields map[string]string) error {
-	for key, value := range fields {
+	// sorted keys: with several invalid entries the reported error (the transaction output, which all
+	// nodes must agree on) would otherwise depend on Go's random map iteration order
+	for _, key := range sortedmap.NewFromMap(fields).GetKeys() {
+		value := fields[key]
 		switch key {
 		case Settings[PourAmount]:
 			fAmount, err := strconv.ParseFloat(value, 64)
